@@ -12,9 +12,9 @@ package main
 // Anything else (loop-carried accumulators, appends, break, returning the key) is order-sensitive.
 
 import (
-	"go/token"
 	"fmt"
 	"go/constant"
+	"go/token"
 	"go/types"
 	"sort"
 	"strings"
